@@ -189,8 +189,8 @@ type persoPlan struct {
 
 func (pp persoPlan) String() string {
 	o := pp.o
-	return fmt.Sprintf("access=%v param=%d suite=%v can=%v layout=%v dgs=%v unsup=%v dg2=%d aa=%+v ca=%+v untrusted=%v digest=%v | maxLe=%d cap=%d lecap=%d ext=%v short=%v skipimg=%v",
-		o.Access, o.ParamID, o.Suite, o.CAN, o.Layout, o.DGs, o.Unsupported, o.DG2Size, o.AA, o.CA, o.Untrusted, o.Digest, pp.maxLe, pp.chipCap, pp.leCap, pp.extended, pp.shortRnd, pp.skipImg)
+	return fmt.Sprintf("access=%v param=%d suite=%v can=%v layout=%v dgs=%v unsup=%v dg2=%d aa=%+v ca=%+v untrusted=%v digest=%v extra-access-infos=%d@%d | maxLe=%d cap=%d lecap=%d ext=%v short=%v skipimg=%v",
+		o.Access, o.ParamID, o.Suite, o.CAN, o.Layout, o.DGs, o.Unsupported, o.DG2Size, o.AA, o.CA, o.Untrusted, o.Digest, len(o.ExtraAccessInfos), o.OwnInfoPos, pp.maxLe, pp.chipCap, pp.leCap, pp.extended, pp.shortRnd, pp.skipImg)
 }
 
 var planDG2Sizes = []int{0, 0, 300, 380, 381, 382, 383, 384, 385, 508, 509, 510, 511, 512, 513, 1000, 4096, 16000, 32767, 32768, 32769, 40000, 65535, 65539}
@@ -220,6 +220,13 @@ func randPlan(r *mrand.Rand, big bool) persoPlan {
 	}
 	o.Digest = issuer.AllHashes[r.IntN(5)]
 	o.EFDIR = r.IntN(5) == 0
+	if o.Access != perso.BACOnly && r.IntN(4) == 0 {
+		// EF.CardAccess advertises further suites / infos the reader does not implement
+		for j := 1 + r.IntN(2); j > 0; j-- {
+			o.ExtraAccessInfos = append(o.ExtraAccessInfos, perso.UnsupportedAccessInfo(r))
+		}
+		o.OwnInfoPos = r.IntN(len(o.ExtraAccessInfos) + 1)
+	}
 	o.SODBySKI = r.IntN(2) == 0
 	o.LDSv1 = r.IntN(2) == 0
 	o.Untrusted = r.IntN(4) == 0
